@@ -110,6 +110,9 @@ def endpoint_from_hint_obj(hint, tor, reactor):
 
 
 def parse_tcp_v1_hint(hint):  # hint_struct -> hint_obj
+    if not isinstance(hint, dict):
+        log.msg(f"invalid hint (not an object): {hint!r}")
+        return None
     hint_type = hint.get("type", "")
     if hint_type not in ["direct-tcp-v1", "tor-tcp-v1"]:
         log.msg(f"unknown hint type: {hint!r}")
@@ -123,6 +126,10 @@ def parse_tcp_v1_hint(hint):  # hint_struct -> hint_obj
         log.msg(f"invalid port in hint: {hint!r}")
         return None
     priority = hint.get("priority", 0.0)
+    if isinstance(priority, bool) or not isinstance(priority, (int, float)):
+        # priorities get compared, sorted and used as dict keys
+        log.msg(f"invalid priority in hint: {hint!r}")
+        return None
     if hint_type == "direct-tcp-v1":
         return DirectTCPV1Hint(hint["hostname"], hint["port"], priority)
     else:
@@ -130,11 +137,18 @@ def parse_tcp_v1_hint(hint):  # hint_struct -> hint_obj
 
 
 def parse_hint(hint_struct):
+    if not isinstance(hint_struct, dict):
+        log.msg(f"invalid hint (not an object): {hint_struct!r}")
+        return None
     hint_type = hint_struct.get("type", "")
     if hint_type == "relay-v1":
+        sub_hints = hint_struct.get("hints", [])
+        if not isinstance(sub_hints, list):
+            log.msg(f"invalid relay hint ('hints' is not a list): {hint_struct!r}")
+            return None
         # the struct can include multiple ways to reach the same relay
         rhints = filter(lambda h: h,  # drop None (unrecognized)
-                        [parse_tcp_v1_hint(rh) for rh in hint_struct["hints"]])
+                        [parse_tcp_v1_hint(rh) for rh in sub_hints])
         return RelayV1Hint(list(rhints))
     return parse_tcp_v1_hint(hint_struct)
 
